@@ -3,12 +3,14 @@ import numpy as np
 from pyvc.vc import contract, bounded
 
 
-def _optimiser(rng, d, acq, optimizer="bfgs", mean=None, as_flat=False):
+def _optimiser(rng, d, acq, optimizer="bfgs", mean=None, as_flat=False, bounds_as_array=False):
     from inference.gp import GpOptimiser, ConstantMean
     n = int(rng.integers(4, 8))
     x = rng.uniform(-2, 2, size=(n, d))
     y = np.cos(x.sum(axis=1)) + 0.3 * x[:, 0]
     bounds = [(-2.5, 2.5)] * d
+    if bounds_as_array:
+        bounds = np.array(bounds, dtype=float)          # the search box handed over as a (d, 2) float array
     x_in = x[:, 0].copy() if (as_flat and d == 1) else x.copy()
     hp = None
     opt = GpOptimiser(x_in, y.copy(), bounds=bounds, y_err=np.full(n, 0.05), acquisition=acq, optimizer=optimizer,
@@ -97,8 +99,10 @@ def propose_add_native(vc):
     d = vc.int("d", lo=1, hi=2)
     optimizer = vc.choice("optimizer", ["bfgs", "diffev"])
     acq_cls = [ExpectedImprovement, UpperConfidenceBound, MaxVariance][seed % 3]
+    as_array = vc.bool("bounds_given_as_array")
     opt, x, y, bounds, x_in = _optimiser(rng, d, acq_cls, optimizer=optimizer if acq_cls is ExpectedImprovement else "bfgs",
-                                         as_flat=True)
+                                         as_flat=True, bounds_as_array=as_array)
+    bounds_before = np.array(bounds, dtype=float).copy()
     x_before, shape_before = x_in.copy(), x_in.shape
     ok_in, ok_data, ok_args = True, True, True
     for it in range(3):
@@ -118,6 +122,8 @@ def propose_add_native(vc):
     vc.ensures("proposals_inside_search_bounds", bool(ok_in))
     vc.ensures("added_evaluation_becomes_data_and_updates_incumbent", bool(ok_data))
     vc.ensures("caller_arrays_not_modified", bool(ok_args) and x_in.shape == shape_before and np.array_equal(x_in, x_before))
+    vc.ensures("search_bounds_not_modified", bool(np.array_equal(np.array(bounds, dtype=float), bounds_before))
+               and bool(np.array_equal(np.array(opt.bounds, dtype=float), bounds_before)))
 
 
 # ================================================================================================
